@@ -67,6 +67,8 @@ def cases(shard, tier):
         for vk in ("i8", "u8", "f8"):
             for g in ("basic", "red", "col"):
                 yield ["arr", lens, pat, v, g, vk]
+        for g in ("basic", "red"):
+            yield ["arr", lens, pat, v, g, "fbig"]
 
 
 def fill(lens, pat):
@@ -97,7 +99,8 @@ def dense(x):
     return x
 
 
-VALUE_KINDS = {"i64": (np.int64, None), "i8": (np.int8, [100, -100, -128, 127]), "u8": (np.uint8, [200, 3, 250, 0]), "f8": (np.float64, [0.5, -2.25, 8.0, 0.0])}
+VALUE_KINDS = {"i64": (np.int64, None), "i8": (np.int8, [100, -100, -128, 127]), "u8": (np.uint8, [200, 3, 250, 0]), "f8": (np.float64, [0.5, -2.25, 8.0, 0.0]),
+               "fbig": (np.float64, [1e16, 1.0, float("inf"), 0.25])}      # a row's result must not depend on the rows before it
 
 
 def _mk(rows, variant, dt=np.int64):
